@@ -187,3 +187,17 @@ def big_frame_plan(draw, kinds=ALL_FRAME_KINDS, max_cols=3, min_cols=1, prefix="
         kind = draw(st.sampled_from(kinds))
         cols.append({"name": f"{prefix}{j}", "kind": kind, "vals": draw(big_values(kind, n, na=na))})
     return {"n": n, "cols": cols}
+
+
+VIAS = ["copy", "deepcopy", "slice_all", "filter_all", "select_all", "rbind_halves", "modify_nothing"]
+
+
+@st.composite
+def decorate(draw, fp):
+    """Now and then: the same table held in non-contiguous arrays, or reached through a chain of methods (build.frame)."""
+    r = draw(st.integers(0, 11))
+    if r == 0:
+        fp["layout"] = "strided"
+    elif r == 1:
+        fp["via"] = draw(st.sampled_from(VIAS))
+    return fp
